@@ -164,13 +164,15 @@ class PlainUnit(PrettyIPython, SharedRegistryObject):
                 qself = 1 * self
                 return qself / other
 
-        return self._REGISTRY.Quantity(1 / other, self._units)
+        # Through the quantity, as for multiplication: offset units are refused
+        # (or converted) by the same rules.
+        return self._REGISTRY.Quantity(1, self._units) / other
 
     def __rtruediv__(self, other):
         # As PlainUnit and Quantity both handle truediv with each other rtruediv can
         # only be called for something different.
         if isinstance(other, NUMERIC_TYPES):
-            return self._REGISTRY.Quantity(other, 1 / self._units)
+            return other / self._REGISTRY.Quantity(1, self._units)
         elif isinstance(other, UnitsContainer):
             return self.__class__(other / self._units)
 
